@@ -316,6 +316,14 @@ def run(chk, repo, tier):
     for t in [n for n in cfg.nodes.values() if n.kind == 'test']:
         tc = [c for c in node_calls(t) if isinstance(c.func, ast.Attribute)
               and c.func.attr in ('is_dir', 'exists', 'is_file') and isinstance(c.func.value, ast.Name)]
+        if not tc and isinstance(t.ast, ast.Compare) and isinstance(t.ast.left, ast.Name) \
+                and isinstance(t.ast.ops[0], ast.IsNot) and isinstance(t.ast.comparators[0], ast.Constant) \
+                and t.ast.comparators[0].value is None:
+            # `x = next(idx.iterdir(), None) if idx.is_dir() else None; if x is not None:` tests the index through x
+            d_ = _def_of(sm.node, t.ast.left.id)
+            if d_ is not None:
+                tc = [c for c in ast.walk(d_) if isinstance(c, ast.Call) and isinstance(c.func, ast.Attribute)
+                      and c.func.attr in ('is_dir', 'exists', 'is_file') and isinstance(c.func.value, ast.Name)]
         if len(tc) != 1:
             continue
         idx = tc[0].func.value.id
@@ -375,6 +383,18 @@ def run(chk, repo, tier):
                               witness='crash (exception or process death) between the two operations: every later '
                                       'store of a model with the same dataset/key takes the reuse branch and fails '
                                       '(FileNotFoundError / StopIteration) or skips writing')
+    # an index directory can be left empty by an interrupted store: reading its first entry needs a default
+    for c in [c for c in ast.walk(sm.node) if isinstance(c, ast.Call) and unparse(c.func) == 'next' and c.args
+              and isinstance(c.args[0], ast.Call) and isinstance(c.args[0].func, ast.Attribute)
+              and c.args[0].func.attr == 'iterdir']:
+        ok = len(c.args) == 2
+        chk.instance(K3, f'`{unparse(c)}` tolerates an empty index directory: {ok}')
+        if not ok:
+            chk.violation(K3, rel, sm.qualname, unparse(c),
+                          'the index directory is created before its entry; a store that dies in between leaves it empty and '
+                          'every later store of a model with that dataset raises StopIteration', line=c.lineno,
+                          witness='kill the process between h_dir.mkdir() and index_path.touch(), then store any model that '
+                                  'uses the same dataset')
     if n_k3 < 2:
         raise AnalysisError(f'K3: expected the model-file short-circuit and the dataset index test in store_model, '
                             f'found {n_k3} index tests')
